@@ -107,11 +107,11 @@ func (c *conn) Prepare(q string) (driver.Stmt, error) { return c.c.Prepare(q) }
 func (c *conn) PrepareContext(ctx context.Context, q string) (driver.Stmt, error) {
 	return c.c.PrepareContext(ctx, q)
 }
-func (c *conn) Close() error                 { return c.c.Close() }
-func (c *conn) Begin() (driver.Tx, error)    { return c.BeginTx(context.Background(), driver.TxOptions{}) }
-func (c *conn) Ping(ctx context.Context) error { return c.c.Ping(ctx) }
+func (c *conn) Close() error                           { return c.c.Close() }
+func (c *conn) Begin() (driver.Tx, error)              { return c.BeginTx(context.Background(), driver.TxOptions{}) }
+func (c *conn) Ping(ctx context.Context) error         { return c.c.Ping(ctx) }
 func (c *conn) ResetSession(ctx context.Context) error { return nil }
-func (c *conn) IsValid() bool                { return true }
+func (c *conn) IsValid() bool                          { return true }
 
 func (c *conn) BeginTx(ctx context.Context, opts driver.TxOptions) (driver.Tx, error) {
 	a := ActorOf(ctx)
